@@ -24,6 +24,59 @@ pub use date_time::UtcDateTime;
 #[cfg(sos_verif)]
 #[doc(hidden)]
 pub use date_time::verif_clock;
+
+/// Crash probes used by the verification harness.
+///
+/// Only compiled with `--cfg sos_verif`; a probe is a no-op
+/// unless it has been armed, an armed probe aborts the process.
+#[cfg(sos_verif)]
+#[doc(hidden)]
+pub mod verif_probe {
+    use std::sync::Mutex;
+
+    struct State {
+        armed: Option<(String, usize)>,
+        trace: Option<Vec<String>>,
+    }
+
+    static STATE: Mutex<State> = Mutex::new(State {
+        armed: None,
+        trace: None,
+    });
+
+    /// Abort the process at the nth hit (1-based) of a probe.
+    pub fn arm(name: &str, nth: usize) {
+        STATE.lock().unwrap().armed = Some((name.to_owned(), nth));
+    }
+
+    /// Start recording the names of the probes that are hit.
+    pub fn start_trace() {
+        STATE.lock().unwrap().trace = Some(Vec::new());
+    }
+
+    /// Stop recording and return the probes that were hit.
+    pub fn take_trace() -> Vec<String> {
+        STATE.lock().unwrap().trace.take().unwrap_or_default()
+    }
+
+    /// Probe at a step boundary of a storage operation.
+    pub fn hit(name: &str) {
+        let mut state = STATE.lock().unwrap();
+        if let Some(trace) = state.trace.as_mut() {
+            trace.push(name.to_owned());
+        }
+        let mut abort = false;
+        if let Some((armed, nth)) = state.armed.as_mut() {
+            if armed == name {
+                *nth -= 1;
+                abort = *nth == 0;
+            }
+        }
+        if abort {
+            std::process::abort();
+        }
+    }
+}
 // pub use device::{DevicePublicKey, TrustedDevice};
 pub use encoding::{decode, encode};
 pub use error::{AuthenticationError, Error, ErrorExt, StorageError};
